@@ -517,7 +517,10 @@ class Polygon(Shape2D):
         # The algorithm in miniball involves solving a linear system and
         # can therefore occasionally be somewhat unstable. Applying a
         # random rotation will usually fix the issue.
-        max_attempts = 10
+        # Degenerate (cospherical) vertex sets make a large fraction of the attempts
+        # fail whatever the rotation, so allow enough of them for failure to be
+        # practically impossible.
+        max_attempts = 50
         attempt = 0
         current_rotation = [1, 0, 0, 0]
         vertices = self.vertices
